@@ -279,10 +279,15 @@ class DiscoveryOracle:
     # ---------------------------------------------------------------- driver
     def walk(self, log):
         self.busy = [(e[2] - e[5], e[2]) for e in log if e[4] == "busy"]  # part of the plan: known up front
+        # a stalled node is, for its own timers, a busy period; while it is frozen the idle points of the loop are not its own
+        self.stalls = [(e[2], e[2] + e[5]) for e in log if e[4] == "stall" and e[3] == self.node]
+        self.busy += self.stalls
         for idx, (seq, it, T, actor, kind, data) in enumerate(log):
             if kind == "crash" and f"{actor}{data}" == self.node:
                 break  # this incarnation is gone: nothing more happens in it, nothing more is owed by it
             if kind == "idle":
+                if any(t0 - RES <= T < t1 - RES for t0, t1 in self.stalls):
+                    continue
                 self.on_idle(T)
             elif actor != self.node and kind != "busy":
                 continue
